@@ -207,6 +207,11 @@ func c06Check(in c06Input, concurrent bool) (string, []string, *wgResult) {
 
 func TestC06(t *testing.T) {
 	rec := ev.New("C06", c06Rule)
+	defer func() {
+		if !rec.Flush() {
+			t.Fail()
+		}
+	}()
 	rec.Assume("the canonical dump names operator nodes by their path from the relation node, so ULIDs never enter the comparison",
 		"concurrency is sampled under the Go race detector with real scheduling; the scheduler is not controlled")
 	if !wgHooks {
@@ -279,10 +284,11 @@ func TestC06(t *testing.T) {
 	})
 	if n := rec.KnownHits("W2"); n > 0 && ev.IsKnown("C06", "W2") {
 		ev.PrintKnown("C06", "W2", wgKnownText["W2"])
+		if ev.IsKnown("C06", "W1") {
+			// the footprint that explains these cases is the full as-implemented model (W1 and W2 together)
+			ev.PrintKnown("C06", "W1", wgKnownText["W1"]+" (only in combination with W2: it decides which operands the restart sees)")
+		}
 		rec.Note("known finding W2: for %d generated models a permutation of intersection operands changed relation weights exactly as the restart-on-empty footprint predicts", n)
-	}
-	if !rec.Flush() {
-		t.Fail()
 	}
 }
 
